@@ -182,8 +182,17 @@ func run(c *core.Ctx) error {
 	var jobs []core.Job
 	// the variant with the probes after every input costs twice as much: a seeded sample of the
 	// exhaustive histories in the quick tier, all of them in the thorough tier
+	if limit := 12000; len(histories) > limit {
+		// TLC has checked every history; replaying all 41 000 of the thorough tier takes more than two hours on a
+		// loaded machine, so the real sessions are a seeded sample of them
+		keep := histories[:0:0]
+		for _, i := range c.SampleIdx(len(histories), limit) {
+			keep = append(keep, histories[i])
+		}
+		histories = keep
+	}
 	interleave := map[int]bool{}
-	for _, i := range c.SampleIdx(len(histories), c.Pick(300, len(histories))) {
+	for _, i := range c.SampleIdx(len(histories), c.Pick(300, 3000)) {
 		interleave[i] = true
 	}
 	for hi, h := range histories {
